@@ -406,3 +406,70 @@ Proof.
       rewrite Ei in H. cbn [snd] in H. specialize (H eq_refl). cbv zeta in H.
       destruct (pg_spec_step _ _) as [s' raise_]. apply (Hfin w' None s' raise_ H).
 Qed.
+
+(* ------------------------------------------------------------------ the memo invariant through the calls *)
+Lemma pgq_memo_generic : forall w w' o,
+  (forall d, pgt_keep (pgq_E o d) (pd_store (pg_get w d)) (pd_store (pg_get w' d)) /\ pd_omap (pg_get w' d) = pd_omap (pg_get w d)) ->
+  pgq_untaint w o -> (forall d, pgq_memo (pg_get w (negb d)) (pg_get w d)) -> (forall d, pgq_memo (pg_get w' (negb d)) (pg_get w' d)).
+Proof.
+  intros w w' o HT Hu HM d. destruct (HT d) as [KD OD]. destruct (HT (negb d)) as [KS _].
+  eapply pgq_memo_keep; [apply HM|exact KS|exact KD|exact OD|].
+  intros a l Hl. split.
+  - intros HE. destruct (Hu d l HE) as [H1 _]. exact (H1 a l Hl eq_refl).
+  - intros Hnn HE. destruct (Hu (negb d) a HE) as [_ H2]. rewrite Bool.negb_involutive in H2.
+    rewrite (H2 l Hl) in Hnn. discriminate.
+Qed.
+
+Lemma pgq_notnull_T : forall s a, pg_is_null s (PvRef a) = false -> ~ (pg_is_null s (PvRef a) = true).
+Proof. intros s a H E. congruence. Qed.
+
+(* copyForeignObject of an object of document b into document d *)
+Lemma pgq_memo_cf : forall w b d i src' dst' r,
+  b = negb d -> pd_all (pg_get w b) <> [] -> pgs_doc (pg_get w b) ->
+  (forall d0, pgq_memo (pg_get w (negb d0)) (pg_get w d0)) ->
+  pg_copied (pg_get w b) (pg_get w d) i = (src', dst', None, r) ->
+  let w' := pg_put (pg_put w b src') d dst' in
+  forall d0, pgq_memo (pg_get w' (negb d0)) (pg_get w' d0).
+Proof.
+  intros w b d i src' dst' r -> Hall Hsrt HM Ecp. cbv zeta.
+  pose proof (pgr_copied_memo (pg_get w (negb d)) (pg_get w d) i Hall Hsrt (HM d)) as H1. rewrite Ecp in H1. cbv beta iota in H1. destruct (H1 eq_refl) as [-> Hm1].
+  pose proof (pgt_copied_dst (pg_get w (negb d)) (pg_get w d) i) as Hk. rewrite Ecp in Hk. cbn [fst snd] in Hk.
+  assert (Eb : pg_get (pg_put (pg_put w (negb d) (pg_get w (negb d))) d dst') (negb d) = pg_get w (negb d)).
+  { rewrite pg_get_put_other, pg_put_get. reflexivity. }
+  assert (Ed : pg_get (pg_put (pg_put w (negb d) (pg_get w (negb d))) d dst') d = dst') by apply pg_get_put_same.
+  intros d0. destruct (Bool.bool_dec d0 d) as [->|Hne].
+  - rewrite Eb, Ed. exact Hm1.
+  - assert (d0 = negb d) by (destruct d0, d; cbn; congruence). subst d0. rewrite Bool.negb_involutive, Eb, Ed.
+    eapply pgq_memo_keep; [apply (HM (negb d))|rewrite Bool.negb_involutive; exact Hk|apply (pgt_keep_refl (fun _ => False))|reflexivity|].
+    intros a l Hl. split; [intros []|]. rewrite Bool.negb_involutive. apply pgq_notnull_T.
+Qed.
+
+(* a successful insertion of a page of document (negb d) into document d *)
+Lemma pgq_memo_foreign : forall w d i pos,
+  pd_all (pg_get w (negb d)) <> [] -> pgs_doc (pg_get w (negb d)) -> pgx_st (pg_get w (negb d)) (pgx_K (pg_get w (negb d))) ->
+  pg_lookup (pd_store (pg_get w (negb d))) i <> None ->
+  (forall d0, pgq_memo (pg_get w (negb d0)) (pg_get w d0)) ->
+  snd (pg_insert w d (PhObj (negb d) i) pos) = None ->
+  let w' := fst (pg_insert w d (PhObj (negb d) i) pos) in
+  forall d0, pgq_memo (pg_get w' (negb d0)) (pg_get w' d0).
+Proof.
+  intros w d i pos Hsall Hsrt Hsts Hex HM Hsucc. cbv zeta.
+  destruct (pgq_insert_foreign_decomp w d i pos Hex Hsucc) as (p1 & s1 & s2 & p2 & l & p3 & Efl & Epush & Ecp & Eil & Egd & Egb).
+  pose proof (pgt_flatten (pg_get w d)) as (KD1 & OD1 & _). rewrite Efl in KD1, OD1. cbn [fst] in KD1, OD1.
+  pose proof (pgt_push (pg_get w (negb d)) false) as (KS1 & OS1 & _). rewrite Epush in KS1, OS1. cbn [fst] in KS1, OS1.
+  pose proof (pgt_insert_local p2 (PvRef l) pos) as (KD3 & OD3 & _). rewrite Eil in KD3, OD3. cbn [fst] in KD3, OD3.
+  assert (Hs1all : pd_all s1 <> []).
+  { destruct (pgx_push_flat _ _ (pgx_st_flat _ _ Hsts) (pgx_st_all _ _ Hsts)) as (s1' & Ep' & _ & Ha' & _). rewrite Epush in Ep'. inversion Ep'. subst s1'.
+    destruct Ha' as [Ha'|[_ ->]]; [|exact Hsall]. rewrite Ha'. destruct (pgx_st_all _ _ Hsts) as [E|E]; congruence. }
+  assert (Hsrt1 : pgs_doc s1) by (pose proof (pgs_push _ false Hsrt) as H; rewrite Epush in H; exact H).
+  assert (Hm1 : pgq_memo s1 p1).
+  { eapply pgq_memo_keep; [apply (HM d)|exact KS1|exact KD1|exact OD1|]. intros a l0 _. split; [intros []|intros _ []]. }
+  pose proof (pgr_copied_memo s1 p1 i Hs1all Hsrt1 Hm1) as H2. rewrite Ecp in H2. cbv beta iota in H2. destruct (H2 eq_refl) as [-> Hm2].
+  pose proof (pgt_copied_dst s1 p1 i) as KD2. rewrite Ecp in KD2. cbn [fst snd] in KD2.
+  intros d0. destruct (Bool.bool_dec d0 d) as [->|Hne].
+  - rewrite Egd, Egb. eapply pgq_memo_keep; [exact Hm2|apply (pgt_keep_refl (fun _ => False))|exact KD3|exact OD3|]. intros a l0 _. split; [intros []|intros _ []].
+  - assert (d0 = negb d) by (destruct d0, d; cbn; congruence). subst d0. rewrite Bool.negb_involutive, Egd, Egb.
+    eapply pgq_memo_keep; [apply (HM (negb d))| |exact KS1|exact OS1|].
+    + rewrite Bool.negb_involutive. exact (pgq_keep_null_chain _ _ _ _ KD1 KD2 KD3).
+    + intros a l0 _. split; [intros []|]. rewrite Bool.negb_involutive. apply pgq_notnull_T.
+Qed.
